@@ -27,28 +27,34 @@ def run(ctx):
             aggs = []
             for _ in range(rng.choice([1, 2, 3])):
                 a = rng.choice(["count", "sum", "min", "max", "avg", "var_pop", "stddev_samp"])
-                aggs.append((a, "*" if a == "count" else rng.choice(["size", "hardlinks", "length(name)"])))
+                c_ = "*" if a == "count" else rng.choice(["size", "hardlinks", "length(name)"])
+                # an aggregate may sit inside an ordinary function: still the group's own aggregate
+                w_ = rng.choice([None, None, None, "abs", "concat"]) if a in ("count", "sum", "min", "max") else None
+                aggs.append((a, c_, w_))
             where = rng.choice(WHERES)
             order = rng.choice(["", "", "key", "key desc", "agg", "agg desc"])
             jobs.append(dict(root=os.path.basename(root), keys=keys, aggs=aggs, where=where, order=order))
 
     def one(j):
-        sel = j["keys"] + ["%s(%s)" % (a, c) for a, c in j["aggs"]]
+        def spell(a, c, w):
+            base = "%s(%s)" % (a, c)
+            return base if w is None else "abs(%s)" % base if w == "abs" else "concat(%s, ' files')" % base
+        sel = j["keys"] + [spell(a, c, w) for a, c, w in j["aggs"]]
         tail = "from %s %s group by %s" % (j["root"], j["where"], ", ".join(j["keys"]))
         ob = ""
         if j["order"].startswith("key"):
             ob = " order by %s%s" % (j["keys"][0], " desc" if j["order"].endswith("desc") else "")
         elif j["order"].startswith("agg"):
             # only integer-valued aggregates sort numerically in the grouped path (recorded finding F14 otherwise)
-            cand = [i for i, (a, c) in enumerate(j["aggs"]) if a in ("count", "sum", "min", "max")]
+            cand = [i for i, (a, c, w) in enumerate(j["aggs"]) if a in ("count", "sum", "min", "max") and w is None]
             if cand:
-                a, c = j["aggs"][cand[0]]
+                a, c, _w = j["aggs"][cand[0]]
                 ob = " order by %s(%s)%s" % (a, c, " desc" if j["order"].endswith("desc") else "")
                 j["order_idx"] = len(j["keys"]) + cand[0]
             else:
                 j["order"] = ""
         rows, r = qlib.select(ctx.impl, ", ".join(sel), tail + ob, cwd=ctx.scratch, ncols=len(sel))
-        base_cols = sorted({c for _, c in j["aggs"] if c != "*"}) or ["size"]
+        base_cols = sorted({c for _, c, _w in j["aggs"] if c != "*"}) or ["size"]
         raw, r0 = qlib.select(ctx.impl, ", ".join(j["keys"] + base_cols), "from %s %s" % (j["root"], j["where"]), cwd=ctx.scratch, ncols=len(j["keys"]) + len(base_cols))
         # ungrouped aggregates of the same query, from the binary itself (conservation)
         ung, r1 = qlib.select(ctx.impl, "count(*), sum(size)", "from %s %s" % (j["root"], j["where"]), cwd=ctx.scratch, ncols=2)
@@ -73,9 +79,21 @@ def run(ctx):
         ok = True
         for row in rows:
             members = groups[tuple(row[:nk])]
-            for (a, c), text in zip(j["aggs"], row[nk:]):
+            for (a, c, w), text in zip(j["aggs"], row[nk:]):
                 vals = [m[base_cols.index(c)] for m in members] if c != "*" else [""] * len(members)
                 ref = agglib.reference(vals)
+                if w == "concat":
+                    if not text.endswith(" files"):
+                        ctx.violation("impl-violates-spec", "group %s: concat(%s(%s), ' files') = %r" % (row[:nk], a, c, text), input=case)
+                        ok = False
+                        break
+                    text = text[:-len(" files")]
+                elif w == "abs":
+                    try:
+                        f_ = float(text)
+                        text = str(int(f_)) if f_ == int(f_) else text
+                    except ValueError:
+                        pass
                 if not agglib.check_value(a, text, ref):
                     ctx.violation("impl-violates-spec", "group %s: %s(%s) = %r, its members give %s" % (row[:nk], a, c, text, ref[a]), input=case, members=vals[:12])
                     ok = False
@@ -115,6 +133,6 @@ def run(ctx):
     replay_generic_known(ctx, 'C08')
     ctx.coverage.update(
         evaluations=len(jobs), distinct_nontrivial=len(st["distinct"]), traces_validated_against_impl=st["agreed"],
-        rule="random trees x grouping keys from ext, dir, is_dir, mode, uid, length(name) and pairs x 1-3 aggregates x optional WHERE x optional ORDER BY on the key or an integer aggregate (asc/desc): one row per distinct key value among the matching entries (from the same query without aggregates), each group's aggregates = exact aggregates of its members, group COUNTs and SUMs add up to the ungrouped COUNT and SUM of the binary, ordered when requested. non-trivial = at least two groups",
+        rule="random trees x grouping keys from ext, dir, is_dir, mode, uid, length(name) and pairs x 1-3 aggregates (plain, or wrapped in an ordinary function: abs(sum(..)), concat(count(*), ..)) x optional WHERE x optional ORDER BY on the key or an integer aggregate (asc/desc): one row per distinct key value among the matching entries (from the same query without aggregates), each group's aggregates = exact aggregates of its members, group COUNTs and SUMs add up to the ungrouped COUNT and SUM of the binary, ordered when requested. non-trivial = at least two groups",
         samples=st["samples"], distribution=dict(st["hist"]))
     return ctx.finish(trusted=["group rows are compared as a set unless ORDER BY is given (HashMap iteration order); mixed integer / non-integer key values under ORDER BY are a recorded deviation (F14) and not judged"])
